@@ -28,7 +28,7 @@ Idle == [st |-> "idle", k |-> "N", v |-> 0]
 
 Init == \E i \in Starts :
    /\ l = i + 1 /\ mm = [op |-> Trace[i].s, g |-> Trace[i].s, k |-> Trace[i].v]
-   /\ st = [St0 EXCEPT !.live = 1..Trace[i].v, !.subs = 1..Trace[i].v] /\ closed = FALSE
+   /\ st = [St0 EXCEPT !.live = 1..Trace[i].v, !.subs = 1..Trace[i].v, !.won = IF Trace[i].s = "WindowWhen" THEN 1 ELSE 0] /\ closed = FALSE
    /\ call = [s \in S |-> Idle] /\ want = <<>> /\ gotn = 0 /\ unsubbing = FALSE
 
 \* integer encoding of an output value (the harness uses the same): tuples / buffers of small integers
